@@ -499,6 +499,32 @@ fn bv_case(f: &[&str]) -> String {
     }
 }
 
+// sparse::BitVector::from_indices called with an arbitrary INDEX list (last = len, last > len,
+// duplicates, unsorted lists included): "CE" when it refuses, else the tables of the vector it
+// built against the bit list of the indices below len.
+fn bvidx_case(f: &[&str]) -> String {
+    let branch: usize = f[1].parse().unwrap();
+    let len: usize = f[2].parse().unwrap();
+    let idx: Vec<usize> = if f[3] == "-" { vec![] } else { f[3].split(' ').map(|x| x.parse().unwrap()).collect() };
+    let mut buf = Vec::new();
+    let mut builder = Builder::new(&mut buf);
+    let r = scrunch::bit_vector::sparse::BitVector::from_indices(branch, len, &idx, &mut builder);
+    drop(builder);
+    if r.is_none() {
+        return "CE".to_string();
+    }
+    let mut bits = vec![false; len];
+    for i in idx.iter() {
+        if *i < len {
+            bits[*i] = true;
+        }
+    }
+    match scrunch::bit_vector::sparse::BitVector::new(&buf) {
+        Some(bv) => format!("OK {}", bv_tables(&bv, &bits)),
+        None => "UE".to_string(),
+    }
+}
+
 // ------------------------------------------------------------------ wavelet trees
 fn wt_tables<W: WaveletTree>(wt: &W, syms: &[u32]) -> String {
     let n = syms.len();
@@ -903,6 +929,7 @@ fn main() {
             match f[0] {
                 "doc" => doc_case(&f),
                 "bv" => bv_case(&f),
+                "bvidx" => bvidx_case(&f),
                 "wt" => wt_case(&f),
                 "sais" => sais_case(&f),
                 "fuzz" => fuzz_case(&f),
@@ -915,6 +942,7 @@ fn main() {
             Ok(s) => writeln!(out, "{}", s).unwrap(),
             Err(_) => writeln!(out, "PANIC").unwrap(),
         }
+        out.flush().unwrap();
     }
     out.flush().unwrap();
 }
